@@ -65,7 +65,7 @@ class BaseDecider(SynthesisDecider):
             n = self.random.randint(0, 10)
             e = self.random.randint(0, round(log10(width)))
 
-            extra = pow(n, e) % width
+            extra = pow(n, e) % (half + 1)  # min_int + half +/- extra must stay inside [min_int, max_int]
             extra = extra if self.random_bool() else -extra
             v = min_int + half + extra
             return v
